@@ -212,6 +212,8 @@ theorem updateInflight_fw (g : Good B Q) (fuel : Nat) : ∀ {s : S} (idx : Nat),
     · rename_i m hm
       have hmem : m ∈ s.out := List.mem_of_getElem? hm
       split
+      · exact h
+      split
       · split
         · extract_lets m' s1
           have hq1 : ∀ x ∈ s1.out, Q x.qos := by
@@ -294,6 +296,8 @@ theorem connackResend_fw (g : Good B Q) (fuel : Nat) : ∀ {s : S} (idx : Nat) (
       have hset : ∀ st : MS, QosOk s.out → QosOk (s.out.set idx { m with state := st }) :=
         fun st hq' => QosOk.set hq' idx _ (hq' m hmem)
       split
+      · exact h
+      split
       · fw_auto
       · -- the three retransmission cases
         have hpub : ∀ (s1 : S) (st : MS), (m.qos = 1 ∨ m.qos = 2) →
@@ -374,7 +378,17 @@ theorem handleConnack_fw (g : Good B Q) (sp : Bool) (result : Nat) (ok : Bool) (
   · split
     · split
       · exact h
-      · exact reconnect_fw g ok h.upd_mk
+      · have hr := reconnect_fw (k := k) g ok (h.upd_mk (b := s) (proto := 3) (cfg := s.cfg) (hostSet := s.hostSet)
+          (cstate := s.cstate) (sock := s.sock) (nconn := s.nconn) (lastMid := s.lastMid) (inflight := s.inflight)
+          (outq := s.outq) (regWrite := s.regWrite) (firstConnect := s.firstConnect) (inCb := s.inCb) (pingT := s.pingT)
+          (lastIn := s.lastIn) (lastOut := s.lastOut) (now := s.now) (reconnectDelay := s.reconnectDelay)
+          (sendScript := s.sendScript) (infos := s.infos) (raiseOnMessage := s.raiseOnMessage) (ackd := s.ackd)
+          (discCalled := s.discCalled))
+        split
+        · rename_i heq
+          rw [heq] at hr
+          exact Fw.emit hr (by trivial)
+        · exact hr
     · have h3 : Fw (PB B k) s0 s3 := by fw_auto
       clear_value s3
       have := connackResend_fw (k := k) (s0 := s0) g (s3.out.length + 1) 0 rcSuccess h3
